@@ -54,6 +54,27 @@ def run_tcp(ctx, cases, tag, timeout=900):
     return results
 
 
+def stable(run, attempts=3):
+    """real-socket scenarios are timing sensitive on a loaded machine (a reply that misses its deadline looks like a failure). The families
+    are deterministic functions of the seed, so a family that reports failures is run again (up to `attempts` times in all) and only the
+    kinds of failure that show up EVERY time are kept: a defect in the code reproduces, a scheduling hiccup does not."""
+    fails, cov = run()
+    if not fails:
+        return fails, cov
+    keys = set(f[0] for f in fails)
+    reruns = 0
+    for _ in range(attempts - 1):
+        reruns += 1
+        f2, _c = run()
+        keys &= set(f[0] for f in f2)
+        if not keys:
+            break
+    cov = dict(cov)
+    cov["reruns_after_a_failure"] = reruns
+    cov["failure_kinds_not_reproduced"] = sorted(set(f[0] for f in fails) - keys)
+    return [f for f in fails if f[0] in keys], cov
+
+
 def env_broken(r):
     """the scenario could not set up its own upstreams (a foreign process holds a port): inconclusive, never an alarm"""
     return isinstance(r, list) and any(x.get("op") == "upstream" and not x.get("ok") for x in r)
